@@ -53,14 +53,25 @@ func (r *responseWriterDelegator) Written() int64 {
 }
 
 func (r *responseWriterDelegator) WriteHeader(code int) {
-	if r.observeWriteHeader != nil && !r.wroteHeader {
-		// Only call observeWriteHeader for the 1st time. It's a bug if
-		// WriteHeader is called more than once, but we want to protect
+	// 1xx informational headers (except 101 Switching Protocols) are not
+	// the final response status: the underlying ResponseWriter sends them
+	// right away and still expects the final header (or assumes 200 on the
+	// first write). Just pass them through without recording them.
+	if code >= 100 && code <= 199 && code != http.StatusSwitchingProtocols {
+		r.ResponseWriter.WriteHeader(code)
+		return
+	}
+	if !r.wroteHeader {
+		// Only record the status and call observeWriteHeader for the 1st
+		// time. It's a bug if WriteHeader is called more than once (the
+		// peer only ever sees the first status), but we want to protect
 		// against it here. Note that we still delegate the WriteHeader
 		// to the original ResponseWriter to not mask the bug from it.
-		r.observeWriteHeader(code)
+		if r.observeWriteHeader != nil {
+			r.observeWriteHeader(code)
+		}
+		r.status = code
 	}
-	r.status = code
 	r.wroteHeader = true
 	r.ResponseWriter.WriteHeader(code)
 }
